@@ -113,6 +113,9 @@ func (o *O) variants(inside bool) []*O {
 		if 1 < len(rs) {
 			for i := range rs {
 				c := append(append([]rune{}, rs[:i]...), rs[i+1:]...)
+				if o.K == "sym" && c[0] == ':' {
+					continue // that would be a keyword
+				}
 				out = append(out, leaf(o.K, string(c)))
 			}
 		}
@@ -202,8 +205,9 @@ func (m *minimiser) kindOf(o *O, c Cfg) string {
 
 const maxMinCalls = 40000
 
-// minimiseObj returns the smallest object found that fails under c with the same kind.
-func (m *minimiser) minimiseObj(o *O, c Cfg, kind string) *O {
+// minimiseObj returns the smallest object found that still fails under c
+// (in any way: the minimal form decides the failure kind that is reported).
+func (m *minimiser) minimiseObj(o *O, c Cfg) *O {
 	o = o.clone()
 	for m.calls < maxMinCalls {
 		progress := false
@@ -211,7 +215,7 @@ func (m *minimiser) minimiseObj(o *O, c Cfg, kind string) *O {
 			if cand.size() > o.size() || cand.key() == o.key() {
 				continue
 			}
-			if m.kindOf(cand, c) == kind {
+			if m.kindOf(cand, c) != "" {
 				o = cand
 				progress = true
 				break
@@ -225,21 +229,30 @@ func (m *minimiser) minimiseObj(o *O, c Cfg, kind string) *O {
 }
 
 // minimiseCfg resets every configuration dimension the failure does not depend on.
-func (m *minimiser) minimiseCfg(o *O, c Cfg, kind string) Cfg {
+func (m *minimiser) minimiseCfg(o *O, c Cfg) Cfg {
+	if c.Via == "wire" {
+		return c
+	}
+	// The entry points differ in how they report one and the same failure
+	// (read-from-string turns an incomplete form into an error): any failure
+	// through the plain entry points stands for the failure seen.
+	nc := c
+	nc.Via = "append"
+	if nc != c && m.kindOf(o, nc) != "" {
+		c = nc
+	}
+	nc = c
+	nc.Read = "readstring"
+	if nc != c && m.kindOf(o, nc) != "" {
+		c = nc
+	}
+	// every other dimension is reset only if the failure stays the same
+	kind := m.kindOf(o, c)
 	try := func(nc Cfg) {
 		if nc != c && m.kindOf(o, nc) == kind {
 			c = nc
 		}
 	}
-	if c.Via == "wire" {
-		return c
-	}
-	nc := c
-	nc.Via = "append"
-	try(nc)
-	nc = c
-	nc.Read = "readstring"
-	try(nc)
 	nc = c
 	nc.Pretty, nc.Margin = false, 120
 	try(nc)
@@ -261,7 +274,8 @@ func (m *minimiser) minimiseCfg(o *O, c Cfg, kind string) Cfg {
 }
 
 // cfgPart names the configuration dimensions the failure depends on.
-func (m *minimiser) cfgPart(o *O, c Cfg, kind string) string {
+func (m *minimiser) cfgPart(o *O, c Cfg) string {
+	kind := m.kindOf(o, c)
 	var parts []string
 	if c.Via != "append" {
 		parts = append(parts, "via="+c.Via)
@@ -316,4 +330,3 @@ func (m *minimiser) cfgPart(o *O, c Cfg, kind string) string {
 	}
 	return strings.Join(parts, ",")
 }
-
